@@ -392,7 +392,7 @@ def scenario_runs(T, seed):
 
     def X(nf, scripts, cfg, variant='rl', **kw):
         # quick tier: all schedules are explored under the driver monitor, the first 200 distinct histories of a run go to TLC
-        kw.setdefault('hcap', 100000 if T else 200)
+        kw.setdefault('hcap', 6000 if T else 200)
         runs.append((variant, xcmd(nf, scripts, cfg, **kw), cfg))
     c1 = 'n=3 keys=1'
     c14 = 'n=3 keys=1,4'            # 4 % 3 = 1: the two keys share a name
@@ -439,14 +439,14 @@ def scenario_runs(T, seed):
     # --- every protocol-respecting call sequence (enabledOps), lock operations as single steps ---
     if T:
         c = 'n=3 keys=1 maxw=1'
-        runs.append(('al', 'X 2 3 3000000 100000 ' + c, c))
+        runs.append(('al', 'X 2 3 3000000 6000 ' + c, c))
         c = 'n=3 keys=1,4 maxw=1 pre=1:1 kinds=ow,ws,cw,or,rs,cr,cf,fk,fe'
-        runs.append(('al', 'X 2 3 3000000 100000 ' + c, c))
+        runs.append(('al', 'X 2 3 3000000 6000 ' + c, c))
     # --- the two findings on the unchanged code, with the driver monitor in strict mode: exact schedules for the report ---
     X(2, ['u:1', 'f:1+r0:1'], pre + ' strict=1', hcap=0)
     X(2, ['r:1', 'u:1+f:1'], pre + ' strict=1', variant='al', hcap=0)
     # --- T2: random walks, 4 fibers, 4 keys, 8 slices ---
-    nw = 3000 if T else 200
+    nw = 2000 if T else 200
     wc = 'n=8 keys=1,2,3,9 maxw=3 pre=1:2,2:1'
     runs.append(('rl', 'W 4 8 %d %d 0 %s' % (nw, seed + 1, wc), wc))
     wc2 = 'n=4 keys=1,5 maxw=2 pre=1:2'
@@ -471,7 +471,8 @@ def run(ctx):
         mcs += [(mc, 'MC_StoreIndex.cfg'), (mi, 'MC_StoreMapImpl_2.cfg'), (mi, 'MC_StoreMapImpl_u.cfg')]
     if ctx.replay:
         mcs = []
-    mc_f = [bg.submit(vlib.tlc_must_pass, ctx, m, os.path.join(SPEC, c), workers=2, heap='6g', timeout=2400) for m, c in mcs]
+    mc_f = [bg.submit(vlib.tlc_must_pass, ctx, m, os.path.join(SPEC, c), workers=(6 if c == 'MC_StoreIndex.cfg' else 2), heap='6g', timeout=2400)
+            for m, c in mcs]
 
     # 1b. T1: edges of the I-graphs on the real code (lock operations as single steps); quick: a seeded sample of each graph
     def t1(cfgname, drv_cfg, max_edges):
